@@ -41,7 +41,7 @@ fn all_default_and_unblocked() {
 }
 
 #[derive(Debug, Clone, PartialEq)]
-enum Outcome {
+pub(crate) enum Outcome {
     TermBy(i32),
     Stopped,
     Continues,
@@ -176,7 +176,9 @@ fn platform_names(n: c_int) -> Vec<String> {
 
 /// A terminating signal that arrives while the process is stopped by a stop signal: once continued, the process dies of it.
 /// `emulated`: both signals go through conditional-default actions of the library instead of the kernel's dispositions.
-fn stop_then_term(emulated: bool, stop_sig: c_int, term_sig: c_int) -> Outcome {
+static STOP_SEEN: std::sync::atomic::AtomicU64 = std::sync::atomic::AtomicU64::new(0);
+
+pub(crate) fn stop_then_term(emulated: bool, stop_sig: c_int, term_sig: c_int) -> Outcome {
     unsafe {
         let mut ready = [0i32; 2];
         libc::pipe(ready.as_mut_ptr());
@@ -188,6 +190,9 @@ fn stop_then_term(emulated: bool, stop_sig: c_int, term_sig: c_int) -> Outcome {
             all_default_and_unblocked();
             if emulated {
                 let on = std::sync::Arc::new(std::sync::atomic::AtomicBool::new(true));
+                let _cnt = signal_hook_registry::register(stop_sig, || {
+                    STOP_SEEN.fetch_add(1, std::sync::atomic::Ordering::SeqCst);
+                });
                 let a = signal_hook::flag::register_conditional_default(stop_sig, on.clone());
                 let b = signal_hook::flag::register_conditional_default(term_sig, on);
                 if a.is_err() || b.is_err() {
@@ -196,8 +201,15 @@ fn stop_then_term(emulated: bool, stop_sig: c_int, term_sig: c_int) -> Outcome {
             }
             libc::write(ready[1], b"r".as_ptr() as *const _, 1);
             // alive for a while, then give up (the parent reads that as "survived")
+            let dispatcher = signal_hook_registry::verif::dispatcher_addr();
             for _ in 0..300 {
                 libc::usleep(10_000);
+                if emulated && STOP_SEEN.load(std::sync::atomic::Ordering::SeqCst) >= 1 {
+                    // it has been stopped and continued: the library's handler must still be the disposition of the stop signal
+                    if crate::sig::disposition(stop_sig).map(|d| d.0) != Some(dispatcher) {
+                        libc::_exit(43);
+                    }
+                }
             }
             libc::_exit(42);
         }
@@ -223,6 +235,26 @@ fn stop_then_term(emulated: bool, stop_sig: c_int, term_sig: c_int) -> Outcome {
         if !libc::WIFSTOPPED(status) {
             return Outcome::Other(format!("ended instead of stopping (status {:#x})", status));
         }
+        // continued and stopped a second time: the second stop signal stops it like the first one did
+        libc::kill(pid, libc::SIGCONT);
+        libc::usleep(20_000);
+        libc::kill(pid, stop_sig);
+        let t0 = crate::now_ms();
+        loop {
+            let r = libc::waitpid(pid, &mut status, libc::WUNTRACED | libc::WNOHANG);
+            if r == pid {
+                break;
+            }
+            if crate::now_ms() - t0 > 3000 {
+                libc::kill(pid, libc::SIGKILL);
+                libc::waitpid(pid, &mut status, 0);
+                return Outcome::Other("second stop signal did not stop the process".into());
+            }
+            libc::usleep(1000);
+        }
+        if !libc::WIFSTOPPED(status) {
+            return Outcome::Other(format!("ended instead of stopping a second time (status {:#x})", status));
+        }
         libc::kill(pid, term_sig);
         libc::usleep(5_000);
         libc::kill(pid, libc::SIGCONT);
@@ -241,6 +273,8 @@ fn stop_then_term(emulated: bool, stop_sig: c_int, term_sig: c_int) -> Outcome {
         }
         if libc::WIFSIGNALED(status) {
             Outcome::TermBy(libc::WTERMSIG(status))
+        } else if libc::WIFEXITED(status) && libc::WEXITSTATUS(status) == 43 {
+            Outcome::Other("after an emulated stop the library's handler is no longer the disposition of the stop signal".into())
         } else if libc::WIFEXITED(status) && libc::WEXITSTATUS(status) == 42 {
             Outcome::Continues
         } else {
@@ -407,6 +441,37 @@ pub fn main(args: &[String]) -> i32 {
         }
         if r.out.contains("DISPOSITION-CHANGED") || r.out.contains("FLAG-KEPT") {
             bad.push((format!("unknown-signal-side-effect-{}", n), format!("register_conditional_default({}) returned an error but left something behind: {}", n, r.out.replace('\n', " "))));
+        }
+    }
+    // ---- look-ups of different signals that overlap in time (threads): every answer is the one for its own number
+    {
+        let res = fork::probe(30_000, false, |fd| {
+            let sigs = [libc::SIGWINCH, libc::SIGURG, libc::SIGTSTP, libc::SIGTERM, libc::SIGHUP, libc::SIGCHLD];
+            let want: Vec<Option<&'static str>> = sigs.iter().map(|s| signal_hook::low_level::signal_name(*s)).collect();
+            let mut js = Vec::new();
+            for t in 0..4usize {
+                let want = want.clone();
+                js.push(std::thread::spawn(move || {
+                    let mut wrong = 0u64;
+                    for i in 0..400_000usize {
+                        let k = (i + t) % sigs.len();
+                        if signal_hook::low_level::signal_name(sigs[k]) != want[k] {
+                            wrong += 1;
+                        }
+                    }
+                    wrong
+                }));
+            }
+            let wrong: u64 = js.into_iter().map(|j| j.join().unwrap_or(1)).sum();
+            fork::wr(fd, &format!("WRONG {}\n", wrong));
+            0
+        });
+        probes += 1;
+        keys.insert("overlapping-lookups".to_string());
+        match res.out.lines().find(|l| l.starts_with("WRONG ")) {
+            Some("WRONG 0") => {}
+            Some(l) => bad.push(("name-mismatch-overlapping-lookups".into(), format!("four threads looking up six signal numbers at the same time: {} answers were the name of another signal", &l[6..]))),
+            None => inconclusive = Some(format!("overlapping look-ups probe ended {:?}", res.end)),
         }
     }
     // ---- a terminating signal sent while the process is stopped through the emulation of a stop signal
